@@ -9,6 +9,8 @@ import FcpptModel.Model.C14
 | `toDifferent` (`to_dim`, `to_vector`)        | `detail/to_different.hpp`, `vector/to_dim.hpp`, `dim/to_vector.hpp`  |
 | `unit`                                       | `vector/unit.hpp`                                                    |
 | `Mat.transformPoint`, `Mat.transformDirection` | `matrix/transform_point.hpp`, `matrix/transform_direction.hpp`      |
+| `mod`, `modS`, `modV`                        | `math/mod.hpp` + `detail/mod.hpp` (`%`), `vector/mod.hpp` (both overloads) |
+| `ceilDivSigned`, `ceilDivSignedV`            | `math/ceil_div_signed.hpp`, `vector/ceil_div_signed.hpp`             |
 | `longMin`, `Mat.infinityNorm`                | `matrix/infinity_norm.hpp` (`T = long`: the fold starts at `numeric_limits<long>::min()`) |
 -/
 namespace Fcppt.C14
@@ -46,6 +48,31 @@ def Mat.transformPoint (m : Mat 4 4) (v : Vec 3) : Vec 3 := narrowCast (by decid
 
 /-- `matrix::transform_direction(m, v)`: `narrow_cast<static_<T, 3>>(m * push_back(v, 0))` -/
 def Mat.transformDirection (m : Mat 4 4) (v : Vec 3) : Vec 3 := narrowCast (by decide) (m.mulVec (pushBack v 0))
+
+/-- `fcppt::math::mod(a, b)`: nothing for a zero divisor, otherwise C++ `%`.  `detail::mod` exists for unsigned (and
+    floating-point) types only — a signed `T` does not compile — so the code only ever reaches non-negative operands,
+    where truncating and flooring `%` agree. -/
+def mod (a b : Int) : Option Int := if b = 0 then none else some (Int.tmod a b)
+
+/-- `vector::mod(v, div)`: `sequence(init(mod(at<Index>(v), div)))` -/
+def modS {n : Nat} (v : Vec n) (d : Int) : Option (Vec n) := sequence (Vector.ofFn fun i => mod (atI v i) d)
+
+/-- `vector::mod(v0, v1)`: `sequence(init(mod(at<Index>(v0), at<Index>(v1))))` -/
+def modV {n : Nat} (v0 v1 : Vec n) : Option (Vec n) := sequence (Vector.ofFn fun i => mod (atI v0 i) (atI v1 i))
+
+/-- `fcppt::math::ceil_div_signed(a, b)`: nothing for `b == 0`; otherwise `quotient = a / b`, `remainder = a % b` and
+    `remainder != 0 && ((remainder < 0) == (b < 0)) ? quotient + 1 : quotient` -/
+def ceilDivSigned (a b : Int) : Option Int :=
+  if b ≠ 0 then
+    let quotient := Int.tdiv a b
+    let remainder := Int.tmod a b
+    some (if remainder ≠ 0 ∧ (decide (remainder < 0) = decide (b < 0)) then quotient + 1 else quotient)
+  else none
+
+/-- `vector::ceil_div_signed(v, d)`: `sequence(map(v, ceil_div_signed(·, d)))` -/
+def ceilDivSignedV {n : Nat} (v : Vec n) (d : Int) : Option (Vec n) :=
+  let a := toArray v
+  sequence (Vector.ofFn fun i => ceilDivSigned a[i] d)
 
 /-- `std::numeric_limits<long>::min()` -/
 def longMin : Int := -9223372036854775808
